@@ -111,10 +111,12 @@ def replay(ctx, path):
     d = json.load(open(path))
     rep = d["replay"]
     if rep.get("behaviour"):
-        # re-execute the behaviour on the real code (same seed and padding choice are derived from its position: run it
-        # alone, several seeds) and validate the fresh traces
-        for s in range(3):
-            rows = replay_behaviours(ctx, [rep["behaviour"]], "replay of " + os.path.basename(path), ctx.seed * 100 + s)
+        # re-execute the behaviour on the real code as it is now (run alone, several seeds: padding 0/50/300 and the
+        # concrete bytes vary) and validate the fresh traces; the verdict is about the current code
+        for s in range(6):
+            replay_behaviours(ctx, [rep["behaviour"]], "replay of " + os.path.basename(path), ctx.seed * 100 + s)
+        return
+    # no behaviour to re-execute (concurrent trace): the recorded trace itself is judged again
     rows = [x for x in rep["scenario_trace"] if x.get("ev") != "..."]
     tf = os.path.join(ctx.scratch, "replay.ndjson")
     vlib.write_ndjson(tf, rows)
